@@ -130,6 +130,28 @@ func c01Check(c *ctx, cs c01Case, msg *ast.DataMessage) {
 		c.Violation("C01/round-trip-differs/"+feat, diff+" msg="+clipS(ref.PrintMsg(m)), cs)
 		return
 	}
+	// a message derived from an already encoded one must encode its own fields (not a memo of its parent's bytes)
+	if src != "decoder" && src != "restamped" {
+		r := rng.New(rng.Hash64(b))
+		m2 := *m
+		m2.Session = r.Intn(65536)
+		copy(m2.Sys[:], r.Bytes(4))
+		var derived *ast.DataMessage
+		if o := real.Try(func() { derived = msg.SetSessionIDAndSystemBytes(m2.Session, m2.Sys[:]) }); !o.Panicked {
+			cs2 := cs
+			cs2.Source = "restamped"
+			cs2.Msg = &m2
+			if src == "sml" {
+				// the parser may have built a different item; only the header part is ours to predict
+				got := derived.ToBytes()
+				if len(got) >= 14 && (int(got[4])<<8|int(got[5]) != m2.Session || !bytes.Equal(got[10:14], m2.Sys[:])) {
+					c.Violation("C01/derived-message-encodes-stale-header/"+src, fmt.Sprintf("after SetSessionIDAndSystemBytes(%d, %x) the bytes carry %x", m2.Session, m2.Sys, got[4:14]), cs)
+				}
+			} else {
+				c01Check(c, cs2, derived)
+			}
+		}
+	}
 	// source (d): the decoder's own output, encoded and decoded once more
 	if src != "decoder" {
 		dec2, ok2, _ := hsmsParse(dm.ToBytes())
@@ -353,6 +375,51 @@ func runC01(c *ctx) {
 			c01Eval(c, c01Case{Source: "constructors", Msg: g.Msg(it, true)})
 		}
 	}
+	// lists of many empty items (every kind), at the length-byte boundaries and beyond
+	var wide []c01Case
+	for _, n := range []int{255, 256, 65535, 65536, 65537, c.pick(70000, 200000)} {
+		for k := ref.L; k < ref.NKinds; k++ {
+			if k != ref.L && n != 256 && n != 65536 && !c.thorough {
+				continue
+			}
+			it := &ref.Item{Kind: ref.L}
+			empty := &ref.Item{Kind: k}
+			for i := 0; i < n; i++ {
+				it.Children = append(it.Children, empty)
+			}
+			gg := gen.New(r, gen.Profile{})
+			wide = append(wide, c01Case{Source: "constructors", Msg: gg.Msg(it, true)})
+		}
+	}
+	c.parallel(len(wide), func(i int, _ *rng.R) {
+		c.Class("lists-of-empty-items")
+		c01Eval(c, wide[i])
+	})
+	// items at the 16,777,215-byte limit (1-byte formats reach it exactly); quick: ASCII only
+	giant := []ref.Kind{ref.A}
+	if c.thorough {
+		giant = []ref.Kind{ref.A, ref.B, ref.I1, ref.U1, ref.BOOLEAN}
+	}
+	for _, k := range giant {
+		for _, n := range []int{ref.MaxBytes - 1, ref.MaxBytes} {
+			it := &ref.Item{Kind: k}
+			if k == ref.A {
+				it.Str = bytes.Repeat([]byte("Z"), n)
+			} else {
+				it.Slots = make([]ref.Slot, n)
+				for i := range it.Slots {
+					if k == ref.I1 {
+						it.Slots[i].Int = -3
+					} else {
+						it.Slots[i].Uint = 1
+					}
+				}
+			}
+			gg := gen.New(r, gen.Profile{})
+			c.Class("items-at-the-size-limit")
+			c01Eval(c, c01Case{Source: "constructors", Msg: gg.Msg(it, true)})
+		}
+	}
 	// nesting chains
 	for _, depth := range []int{1, 2, 10, 40, c.pick(200, 2000)} {
 		it := &ref.Item{Kind: ref.U2, Slots: []ref.Slot{{Uint: 0xBEEF}}}
@@ -374,7 +441,7 @@ func runC01(c *ctx) {
 	}
 	g := gen.New(r, gen.Profile{})
 	c01Eval(c, c01Case{Source: "constructors", Msg: g.Msg(&ref.Item{Kind: ref.L, Children: []*ref.Item{all, allA}}, true)})
-	c.Required = []string{"source/constructors", "source/template", "source/sml", "source/decoder", "shape/maxlenbytes=2", "shape/maxlenbytes=3"}
+	c.Required = []string{"source/constructors", "source/template", "source/sml", "source/decoder", "source/restamped", "lists-of-empty-items", "items-at-the-size-limit", "shape/maxlenbytes=2", "shape/maxlenbytes=3"}
 }
 
 func replayC01(c *ctx, raw json.RawMessage) {
